@@ -53,7 +53,9 @@ def gen_cases(tier):
         for spin in (False, True):
             for rel in cs.RELS:
                 for lt in (True, False):
-                    yield {"part": "inner", "spin": spin, "rel": rel, "log_trick": lt}
+                    # ... as a bare symbol and inside compound expressions (never zero for the substituted values)
+                    for coef in INNER_COEFS:
+                        yield {"part": "inner", "spin": spin, "rel": rel, "log_trick": lt, "coef": coef}
         # two constraints of (possibly) different kinds on one model: the recorded constraints are kept per kind
         for spin in (False, True):
             for r1 in cs.RELS:
@@ -68,6 +70,9 @@ def gen_cases(tier):
             for typ in ("PUBO", "PUSO", "PCBO", "PCSO"):
                 yield {"part": "red", "type": typ, "poly": rp.jdict(D)}
     return it
+
+
+INNER_COEFS = {"w": lambda w: w, "w-3": lambda w: w - 3, "2w": lambda w: 2 * w, "-w": lambda w: -w}
 
 
 def same_model(a, b):
@@ -218,7 +223,10 @@ def check(case, st):
         rel, lt = case["rel"], case["log_trick"]
         st.nontrivial += 1
 
-        def build(w):
+        f = INNER_COEFS[case.get("coef", "w")]
+
+        def build(w0):
+            w = f(w0)
             H = Model({("a",): w, ("a", "b"): -2, (): 1})
             kw = {"lam": 2, "bounds": (-9, 9), "suppress_warnings": True}
             if rel != "eq":
@@ -226,7 +234,7 @@ def check(case, st):
             getattr(H, "add_constraint_%s_zero" % rel)({("a",): w, ("b",): -2, ("c",): 3, (): -1}, **kw)
             return H
         compare(st, case, "%s with the symbol as coefficient of the objective and of the %s-constraint polynomial (bounds given)" % (Model.__name__, rel),
-                build, "%s.%s|symbol-in-polynomial|log_trick=%s" % (Model.__name__, rel, lt))
+                build, "%s.%s|symbol-in-polynomial|log_trick=%s|coef=%s" % (Model.__name__, rel, lt, case.get("coef", "w")))
     elif part == "twokinds":
         spin, (r1, r2) = case["spin"], case["rels"]
         Model = qv.PCSO if spin else qv.PCBO
